@@ -12,6 +12,7 @@ import RelicVerif.Lemmas.NtMxp
 import RelicVerif.Lemmas.NtMxpLeg
 import RelicVerif.Lemmas.NtMxpRsa
 import RelicVerif.Lemmas.NtMxpFew
+import RelicVerif.Lemmas.NtMxpLot
 
 namespace Relic.Props.C09
 open Relic.Model Relic.Model.NtMxp
@@ -97,6 +98,12 @@ theorem mxp_crt_rsa (w : Nat) (p q : Nat) [Fact p.Prime] [Fact q.Prime] (hp2 : p
     bits select only bases with a non-zero exponent (`TabOK`), and only such indices are read (`parity_sub`) -/
 theorem mxp_sim_few_exact (w : Nat) (c0 : Int) (ps : List (Int × Int)) (m : Int) :
     FewSpec c0 ps m (mxpSimFew w c0 ps m) := mxpSimFew_spec w c0 ps m
+
+/-- bn_mxp_sim_lot (blocks of XP_WIDTH = 8 pairs through bn_mxp_sim_few, a single leftover pair through bn_mxp, several leftovers through
+    bn_mxp_sim_few, every product reduced by bn_mod_basic): for an odd modulus > 1 and exponents ≥ 0, any number of pairs,
+    the result is (Π a_i^b_i) mod m, canonical -/
+theorem mxp_sim_lot_exact (w : Nat) (ps : List (Int × Int)) (m : Int) (hm : 1 < m) (hodd : m % 2 = 1) (hnn : ∀ p ∈ ps, 0 ≤ p.2) :
+    mxpSimLot w ps m = some (prodPow ps % m) := mxpSimLot_spec w ps m hm hodd hnn
 
 -- the hypotheses are satisfiable
 example : ∃ r, mxpCrtOp 64 5 3 3 7 11 false = some r ∧ 0 ≤ r ∧ r < 7 * 11 ∧ r ≡ 5 ^ 3 [ZMOD 7] ∧ r ≡ 5 ^ 3 [ZMOD 11] :=
